@@ -51,6 +51,9 @@ def scenario(params, ch):
     try:
         w.run_until_connected()
         w.run(2)
+        if "wrap" in opts:
+            w.run(4)
+            w.preset_near_wrap()   # datagram, message and fragment counters cross the 16-bit wrap during the scenario
         base = 0 if "oncb" in opts else len(w.all_sent)
         w.fates = FATES
         for i, (size, retry) in enumerate(msgs):
@@ -150,6 +153,11 @@ def params_list(tier):
             if direction == "c2s":
                 for o in (("cs|oncb",) if tier == "quick" else ("cs|oncb", "sc|oncb", "cs|oncb|dt60")):
                     out.append((direction, msgs + (("small", "none"),), "none", o, 1, 0))
+            # the same with every counter a few numbers below the 16-bit wrap
+            for macro in (("burst",) if tier == "quick" else ("none", "burst")):
+                out.append((direction, msgs, macro, "cs|wrap", 1, 0))
+                if any(r != "none" for _, r in msgs):
+                    out.append((direction, msgs, macro, "cs|wrap", 1, 100))
             # round trip longer than the resend interval: retry modes put the message into several datagrams
             if any(r != "none" for _, r in msgs):
                 for lat in ((8,) if tier == "quick" else (8, 20)):
@@ -177,7 +185,7 @@ def run(tier, seed):
     import os
     os.environ["_C04_TIER"] = tier
     st = explore.explore_all("checks.c04", "scenario", plist, bound,
-                             time_budget=(150 if tier == "quick" else 1500))
+                             time_budget=(900 if tier == "quick" else 3000))
     b3 = None
     if tier == "thorough":
         # three deviations on a few configurations (complete unless the time budget is hit; reported separately)
